@@ -244,6 +244,18 @@ def run_single_isolated(check, ctx, desc, timeout_s=300):
     return "crash", status
 
 
+def run_sequence_isolated(check, ctx, verif_seed, indices, timeout_s=600):
+    """execute the runs with these indices one after the other in ONE forked child (as a batch worker did) and return
+    the result of the last one: for violations that need state left behind by earlier calls of the code under test"""
+    class _Seq(object):
+        def execute(self, desc, ctx_):
+            res = None
+            for i in indices:
+                res = safe_execute(check, check.gen(run_seed(verif_seed, i), ctx_), ctx_)
+            return res
+    return run_single_isolated(_Seq(), ctx, None, timeout_s)
+
+
 def status_text(status):
     if os.WIFSIGNALED(status):
         return "signal-%d" % os.WTERMSIG(status)
@@ -255,11 +267,11 @@ def status_text(status):
 
 
 # ---------------------------------------------------------------------- replay files
-def write_replay(check_id, desc, viol, seed, index=None):
+def write_replay(check_id, desc, viol, seed, index=None, sequence=None):
     d = os.path.join(VERIF, "replays", check_id)
     os.makedirs(d, exist_ok=True)
     blob = json.dumps({"property": check_id, "verif_seed": seed, "run_index": index, "violation": viol,
-                       "desc": desc}, sort_keys=True)
+                       "desc": desc, "sequence": sequence}, sort_keys=True)
     name = "%s_%s.json" % (check_id, hashlib.sha1(blob.encode()).hexdigest()[:12])
     p = os.path.join(d, name)
     with open(p, "w") as f:
@@ -310,7 +322,10 @@ def _main(check, ctx, args, t0):
     # ---- replay mode
     if args.replay:
         rp = json.load(open(args.replay))
-        kind, res = run_single_isolated(check, ctx, rp["desc"])
+        if rp.get("sequence"):
+            kind, res = run_sequence_isolated(check, ctx, rp["sequence"]["verif_seed"], rp["sequence"]["indices"])
+        else:
+            kind, res = run_single_isolated(check, ctx, rp["desc"])
         if kind == "res":
             v = res.get("viol")
             if v is not None:
@@ -422,9 +437,34 @@ def _main(check, ctx, args, t0):
         print("KNOWN-FINDING: property=%s %s (%d runs; e.g. run index %d)" %
               (check.id, open_keys[key].get("what", key[1]), len(rs), rs[0]["i"]))
     rc = 0
-    for key, rs in new_keys.items():
+    unreproducible = []
+    jobs_used = max(1, min(ctx.jobs, nruns))
+    for key, rs in list(new_keys.items()):
         r = rs[0]
         desc, v = r["desc"], r["viol"]
+        seq = None
+        if not v["class"].startswith("crash"):
+            kind, res = run_single_isolated(check, ctx, desc)
+            if not (kind == "res" and res.get("viol") and res["viol"]["class"] == v["class"]):
+                # not a function of this run alone: replay the runs its worker had executed before it, in order
+                idxs = [j for j in range(r["i"] % jobs_used, r["i"] + 1, jobs_used)]
+                kind, res = run_sequence_isolated(check, ctx, ctx.seed, idxs)
+                if kind == "res" and res and res.get("viol") and res["viol"]["class"] == v["class"]:
+                    seq = {"verif_seed": ctx.seed, "indices": idxs}
+                    print("note: violation %s needs the %d runs its worker executed before it (state kept between calls "
+                          "of the code under test); the replay file holds that sequence" % (v["class"], len(idxs) - 1))
+                else:
+                    unreproducible.append((key, r["i"], v))
+                    del new_keys[key]
+                    continue
+        if seq is not None:
+            path = write_replay(check.id, desc, v, ctx.seed, r["i"], sequence=seq)
+            print("violation class=%s key=%s runs=%d first_index=%d detail=%s" %
+                  (v["class"], v.get("key"), len(rs), r["i"], v.get("detail", "")))
+            print("VIOLATION property=%s replay=%s" % (check.id, path))
+            reported.append(path)
+            rc = 1
+            continue
         if hasattr(check, "minimise") and not v["class"].startswith("crash"):
             try:
                 desc2 = check.minimise(desc, v, ctx)
@@ -441,6 +481,12 @@ def _main(check, ctx, args, t0):
         print("VIOLATION property=%s replay=%s" % (check.id, path))
         reported.append(path)
         rc = 1
+
+    if unreproducible and rc == 0:
+        raise HarnessError("violations that reproduce neither alone nor after the runs their worker executed before them: %s"
+                           % [(k[1], i) for k, i, v in unreproducible][:5])
+    for k, i, v in unreproducible:
+        print("note: a violation of class %s (run index %d) did not reproduce in isolation and is not reported" % (v["class"], i))
 
     # ---- evidence
     wall = time.time() - t0
